@@ -214,8 +214,17 @@ pub fn caught<R, F: FnOnce() -> R>(f: F) -> Result<R, String> {
 /// executes one plan under catch_unwind; an escaping panic is a violation of the target property
 pub fn exec_plan<S: Scenario>(sc: &S, plan: &S::Plan, target: &str) -> (Option<Violation>, Ctx) {
     let mut ctx = Ctx::new(target);
+    crate::alloc_track::arm();
     let r = caught(|| sc.execute(plan, &mut ctx));
+    let mem = crate::alloc_track::disarm();
+    ctx.count_n("allocator:tracked-allocations", mem.tracked_allocs);
     let v = match r {
+        Ok(Ok(())) if !mem.clean() => Some(Violation {
+            property: if target == "*" { "?".into() } else { target.to_string() },
+            oracle: "invalid-free".into(),
+            key: String::new(),
+            detail: format!("the tracking allocator recorded {} second free(s) and {} layout mismatch(es): {}", mem.double_free, mem.layout_mismatch, mem.first),
+        }),
         Ok(Ok(())) => None,
         Ok(Err(v)) => Some(v),
         Err(msg) => Some(Violation {
@@ -328,6 +337,7 @@ pub fn run_batch<S: Scenario>(sc: &S, opts: &BatchOpts) -> BatchOutcome {
         (0..nw).map(|_| (AtomicUsize::new(0), AtomicU64::new(0))).collect();
     let done = AtomicUsize::new(0);
     let nfail = AtomicUsize::new(0);
+    let known_early = Known::load(&opts.known_file);
 
     std::thread::scope(|scope| {
         for w in 0..nw {
@@ -336,6 +346,7 @@ pub fn run_batch<S: Scenario>(sc: &S, opts: &BatchOpts) -> BatchOutcome {
             let current = &current;
             let done = &done;
             let nfail = &nfail;
+            let known_early = &known_early;
             let opts = opts;
             std::thread::Builder::new()
                 .stack_size(64 << 20)
@@ -351,8 +362,11 @@ pub fn run_batch<S: Scenario>(sc: &S, opts: &BatchOpts) -> BatchOutcome {
                     let plan = sc.generate(&mut rng, opts.tier, &opts.target);
                     let (v, ctx) = exec_plan(sc, &plan, &opts.target);
                     current[w].0.store(0, Ordering::Relaxed);
-                    if v.is_some() {
-                        nfail.fetch_add(1, Ordering::Relaxed);
+                    if let Some(v) = &v {
+                        // runs that reproduce a listed known finding do not use up the failure budget
+                        if known_early.matches(v).is_none() {
+                            nfail.fetch_add(1, Ordering::Relaxed);
+                        }
                     }
                     let rec = RunRecord {
                         events: ctx.events,
